@@ -500,7 +500,10 @@ fn probe_reader(rt: &tokio::runtime::Runtime, r: Result<anyhow::Result<Box<dyn T
 		Ok(Ok(reader)) => {
 			let mut out = "value".to_string();
 			let mut msg = String::new();
-			for (z, x, y) in [(0u8, 0u32, 0u32), (2, 1, 2), (9, 255, 255), (9, 256, 255), (2, 0, 0), (31, 5, 5), (9, 300, 300)] {
+			// two passes over the coordinates: what a first lookup leaves behind (caches, half-initialised state) must not
+			// change the outcome class of the next one
+			let coords = [(0u8, 0u32, 0u32), (2, 1, 2), (9, 255, 255), (9, 256, 255), (2, 0, 0), (31, 5, 5), (9, 300, 300), (2, 3, 3), (9, 254, 255)];
+			for (z, x, y) in coords.iter().chain(coords.iter()).chain(coords.iter().rev()).copied() {
 				let c = TileCoord3::new(x, y, z).unwrap();
 				let o = oc(catch(|| rt.block_on(reader.get_tile_data(&c))));
 				if o.0 == "panic" && msg.is_empty() {
